@@ -139,6 +139,14 @@ impl<F: Fam> Ctx<F> {
                 self.after_op(s, &[C01], true)
             }
             Op::CrossGet => self.do_cross_get(),
+            Op::RemoveAll { s } => {
+                let s = (*s & 1) as usize;
+                let keys: Vec<u32> = self.slots[s].model.keys().copied().collect();
+                for (i, kk) in keys.into_iter().enumerate() {
+                    self.do_remove(s, kk, i % 3 == 2)?;
+                }
+                self.after_op(s, &[C01], true)
+            }
             Op::ParCheck { s, threads, reps } => self.do_par_check((*s & 1) as usize, *threads, *reps),
             Op::SerdeCheck { s } => self.do_serde_check((*s & 1) as usize),
             Op::SetPoint { s, k, which } => {
